@@ -43,15 +43,18 @@ Section Bytes.
   (* the feature set the library supports: no encryption, no incompatible features, deflate,
      no snapshots (the library never looks at snapshot tables, so images with snapshots are
      outside what it may write to) *)
-  Definition hdr_supported (h : hdr) : bool :=
+  Definition hdr_features_ok (h : hdr) : bool :=
     (h_magic h =? 0x514649fb) && ((h_version h =? 2) || (h_version h =? 3)) &&
     (9 <=? h_cb h) && (h_cb h <=? 21) && (h_ro h <=? 6) &&
-    (h_crypt h =? 0) && (h_incompat h =? 0) && (h_comp_type h =? 0) && (h_nb_snap h =? 0) &&
+    (h_crypt h =? 0) && (h_incompat h =? 0) && (h_comp_type h =? 0) &&
     (h_l1_off h mod 2 ^ h_cb h =? 0) && (h_rt_off h mod 2 ^ h_cb h =? 0) &&
-    (h_l1_off h <? 2 ^ 56) && (h_rt_off h <? 2 ^ 56) &&
     (h_l1_size h <=? 4194304) && (h_rt_clusters h <=? 8388608 / 2 ^ h_cb h) &&
     (if h_version h =? 3 then (104 <=? h_len h) && (h_len h mod 8 =? 0) && (h_len h <=? 2 ^ h_cb h) else true) &&
     (if h_backing_off h =? 0 then true else (h_backing_len h <=? 1023) && (h_backing_off h + h_backing_len h <=? 2 ^ h_cb h)).
+
+  (* the library never looks at snapshot tables: an image with snapshots is outside what the
+     structural checks below describe *)
+  Definition hdr_supported (h : hdr) : bool := hdr_features_ok h && (h_nb_snap h =? 0).
 
   Variable h : hdr.
   Let cb := h_cb h.
